@@ -73,7 +73,7 @@ def gen(rng, tier):
             src_words = [w for w in src_words if all(x in pool for x in w)]
             if src_words:
                 sample = rng.sample(src_words, min(len(src_words), rng.randint(1, 3)))
-                names = GF.PLAIN_STATES + ["q6", "q7", "q8", "q9", "q10", "q11", "q12"]
+                names = ["t%d" % i for i in range(14)]
                 ids = {(): names[0]}
                 tr = []
                 finals = []
